@@ -131,6 +131,8 @@ fn qualification_worlds() -> Vec<(String, String)> {
 }
 
 pub fn run(check: &mut Check) {
+    // every shrink step is a compiler run
+    vcommon::SHRINK_ITERS.store(150, std::sync::atomic::Ordering::Relaxed);
     check.rule = "generated worlds restricted to what the C++ backend does not declare unsupported (no async/futures/streams/error-context, no fixed-length lists, no variant case named like its variant) with adversarial names (C/C++ keywords, generator temporaries, names equal across interfaces) + the corpus minus crates/test/src/cpp.rs exclusions; every generated .cpp is type-checked with `g++ -std=c++20 -fsyntax-only` against crates/cpp/helper-types and test_headers; \
         oracle: no error diagnostics (warnings ignored; the host-width-only error `cast ... loses precision` filtered); non-trivial = world with escaped names or >= 2 feature classes; distinct by WIT text".into();
     check.assumptions.push("g++ 12 / libstdc++ on x86_64 stands in for wasi-sdk clang++/libc++ (-D_GLIBCXX_USE_DEPRECATED=0 avoids libstdc++'s own std::unexpected clashing with the repository's expected polyfill)".into());
@@ -200,7 +202,7 @@ pub fn run(check: &mut Check) {
             check.cases_par("fixed-worlds", &fixed, prop);
         }
         vcommon::Tier::Thorough => {
-            check.prop("worlds", || (tape_strategy(700), Just(0u8), Just(0u8)).prop_map(|(tape, backend, variant)| WorldCase { tape, backend, variant }), 3_000, prop);
+            check.prop("worlds", || (tape_strategy(700), Just(0u8), Just(0u8)).prop_map(|(tape, backend, variant)| WorldCase { tape, backend, variant }), 1_000, prop);
         }
     }
 }
